@@ -46,8 +46,11 @@ COMPONENTS = {
              "hed.schema.schema_io.schema_util.url_to_file", "shutil.copy/copyfile/copyfileobj (sendfile fast path off)",
              "os.makedirs/os.path.exists/isdir", "the scratch file system (tmpfs)",
              "SchemaLoaderXML on every file content that is not byte-identical to a bundled file, and once per bundled file"],
-    "stub": ["portalocker.Lock (flock model, cross-checked against the real portalocker at batch start)",
-             "time.time/sleep (simulated clock)", "make_url_request (simulated GitHub peer)",
+    "stub": ["portalocker.Lock (flock model with shared / exclusive flags, cross-checked against the real portalocker at batch start)",
+             "time.time/sleep/timezone/localtime (simulated clock, per-run time zone)", "make_url_request (simulated GitHub peer)",
+             "os.getpid (simulated process id)", "os.rename/replace/link across the temp-directory boundary (EXDEV in half of the runs)",
+             "module-level containers of the cache modules (one content per simulated process)",
+             "concurrent.futures.ThreadPoolExecutor / threading.Thread as seen by the cache modules (none used by the shipped code)",
              "functools.lru_cache around _load_schema_version removed (every simulated process starts cold)",
              "XML parse of byte-identical bundled content memoised per content hash"],
 }
@@ -55,8 +58,8 @@ ASSUMPTIONS = [
     "crash model is process kill: bytes delivered by an executed write step stay, un-issued writes are lost, rename is atomic",
     "non-faulty processes take <= 2 ms of simulated time per file operation, so a population fits inside the 1 s lock timeout; "
     "O-load is not asserted for a load attempt that waited out the whole lock timeout (the holder was stalled beyond the assumption)",
-    "module-level state of the cache modules (dicts, sets, lru_caches) is per-process: it is put back to its fresh-interpreter "
-    "value when a run starts and whenever a simulated process starts; os.getpid() returns the simulated process id",
+    "module-level state of the cache modules is per-process: containers are swapped at every baton change, lru_caches are "
+    "emptied when a simulated process starts; os.getpid() returns the simulated process id",
     "the temp directory is another file system in half of the runs (rename across the boundary fails with EXDEV); the local time "
     "zone is a per-run knob",
     "flock model: one exclusive lock per path per open file description, released on close or process death",
